@@ -198,10 +198,12 @@ def make_read(rng, k, ads, C, side=1):
         quals += [38] * g
     qual = "".join(chr(base + q) for q in quals)
     name = f"rd{k}x"
+    ws = C.get("_name_ws")          # unusual header layouts: tab / two blanks / another word before the comment field
     if C.get("casava") or rng.random() < 0.3:
-        name += f" {side}:{'Y' if rng.random() < 0.35 else 'N'}:0:ACG"
+        sep = rng.choice((" ", " ", "\t", "  ", "\tx ")) if ws else " "
+        name += f"{sep}{side}:{'Y' if rng.random() < (0.5 if ws else 0.35) else 'N'}:0:ACG"
     if C.get("lengthtag"):
-        name += (" " if rng.random() < 0.8 else "_") + C["lengthtag"] + str(rng.randint(0, 99))
+        name += (rng.choice((" ", "|", "\t", "  ", "_")) if ws else (" " if rng.random() < 0.8 else "_")) + C["lengthtag"] + str(rng.randint(0, 99))
     for s in C.get("strip", []):
         if rng.random() < 0.5:
             name += s
@@ -232,7 +234,8 @@ SCENARIOS = {
             dict(revcomp=True, paired=True), dict(revcomp=True, times=2), dict(revcomp=True, error_rate=0.7, overlap=1),
             dict(revcomp=True, times=2, n_ads=1, repeat=True), dict(revcomp=True, times=3, n_ads=2, repeat=True),
             dict(revcomp=True, action="mask"), dict(revcomp=True, paired=True, action="lowercase"), dict(revcomp=True, same_family=True, n_ads=2)],
-    "C05": [dict(paired=True, info=True, dimers=True), dict(paired=True, aux=True, dimers=True, minlen="1", tooshortout=True), dict(paired=True, pairads=True), dict(paired=True, pairads=True, dup_both=True, n_ads=3, rename="{id} a={r1.adapter_name} b={r2.adapter_name}"),
+    "C05": [dict(paired=True, only_r1=True, empty_A_file=True, duntrim=True), dict(paired=True, only_r1=True, empty_A_file=True, untrimout=True, pairfilter="any"),
+            dict(paired=True, info=True, dimers=True), dict(paired=True, aux=True, dimers=True, minlen="1", tooshortout=True), dict(paired=True, pairads=True), dict(paired=True, pairads=True, dup_both=True, n_ads=3, rename="{id} a={r1.adapter_name} b={r2.adapter_name}"),
             dict(paired=True, pairads=True, dup_both=True, n_ads=3, demux="normal"),
             dict(paired=True, pairads=True, same_r1=True, demux="normal", n_ads=2),
             dict(paired=True, pairads=True, same_r1=True, n_ads=3, rename="{id} a={r1.adapter_name} b={r2.adapter_name}"),
@@ -243,8 +246,8 @@ SCENARIOS = {
     "C11": [dict(maxee="1", maxaer="0.05"), dict(paired=True, pairfilter="both", duntrim=True), dict(paired=True, only_r2=True, duntrim=True),
             dict(action="lowercase", maxn=(1, 1, "1")), dict(minlen="8", maxlen="14", maxn=(0, 1, "0"), casava=True),
             dict(paired=True, pairfilter="both", dtrim=True), dict(untrimout=True, minlen="5"), dict(paired=True, pairfilter="first", untrimout=True),
-            dict(casava=True, rename="{comment}_{id}"), dict(casava=True, rename="{comment}_{id}", paired=True, pairfilter="both")],
-    "C15": [dict(demux="normal", dupseq=True, n_ads=3), dict(demux="combi", paired=True, dupseq=True, n_ads=2), dict(demux="normal", dupseq=True, n_ads=2, paired=True, duntrim=True),
+            dict(casava=True, name_ws=True), dict(casava=True, name_ws=True, paired=True, pairfilter="any"), dict(casava=True, rename="{comment}_{id}"), dict(casava=True, rename="{comment}_{id}", paired=True, pairfilter="both")],
+    "C15": [dict(demux="normal", specialnames=True, n_ads=2), dict(demux="normal", specialnames=True, n_ads=3, paired=True), dict(demux="normal", dupseq=True, n_ads=3), dict(demux="combi", paired=True, dupseq=True, n_ads=2), dict(demux="normal", dupseq=True, n_ads=2, paired=True, duntrim=True),
             dict(demux="combi", paired=True, revcomp=True), dict(demux="normal", paired=True, revcomp=True), dict(demux="normal", revcomp=True, times=2),
             dict(demux="normal", dupname=True, n_ads=3), dict(demux="normal", dupname=True, n_ads=2, paired=True),
             dict(demux="normal", times=2, n_ads=3), dict(demux="combi", paired=True, times=2), dict(demux="normal", casava=True),
@@ -254,7 +257,8 @@ SCENARIOS = {
             dict(polya=True, cores=2, buffer_size=250, n_reads=18), dict(polya=True, paired=True, cores=3, buffer_size=400, n_reads=16),
             dict(revcomp=True, cores=2, buffer_size=300, n_reads=16), dict(paired=True, info=True), dict(times=2, n_ads=3), dict(times=3, paired=True), dict(demux="combi", paired=True, duntrim=True),
             dict(maxaer="0.05"), dict(polya=True), dict(paired=True, polya=True, q="10"),
-            dict(polya=True, longread=True, n_ads=0, n_reads=3, fmt="fasta", plain=True)],
+            dict(polya=True, longread=True, n_ads=0, n_reads=3, fmt="fasta", plain=True),
+            dict(demux="normal", specialnames=True, n_ads=2), dict(demux="normal", specialnames=True, n_ads=3, paired=True)],
     "C10": [dict(paired=True, cut1=[3], cut2=[], q=None, Q=None, nextseq=None, pairads=True, len2=8, polya=False),
             dict(paired=True, cut1=[2], cut2=[], q=None, Q=None, nextseq=None, revcomp=True, len2=9, polya=False),
             dict(paired=True, cut2=[2], cut1=[], q=None, Q=None, nextseq=None, revcomp=True, len1=9, polya=False),
@@ -264,6 +268,8 @@ SCENARIOS = {
             dict(lengthtag="length=", rename="{header} x", cut1=[3]), dict(strip=[".x"], rename="{header}|{id}", trimn=True),
             dict(paired=True, len1=8, len2=0), dict(paired=True, len1=10), dict(nextseq=20, q="20"), dict(nextseq=20, q="10", paired=True, Q="20"),
             dict(cut1=[30], lengthtag="length="), dict(polya=True, len1=10, trimn=True), dict(cut1=[3, -2], q="10,10"),
+            dict(lengthtag="length=", name_ws=True, cut1=[3], paired=False), dict(lengthtag="length=", name_ws=True, rename="{id}|{comment}", cut1=[2, -1], paired=False),
+            dict(zerocap=True, fasta_noop=True, qbase=64, minlen="8", tooshortout=True), dict(zerocap=True, fasta_noop=True, paired=True, maxlen="14", toolongout=True),
             dict(paired=True, q="15,20", Q="25", nextseq=None), dict(paired=True, q="12,10", Q="9", nextseq=None), dict(paired=True, q="15", Q="12,25", nextseq=None)],
     "C20": [dict(linked=True, revcomp=True, cores=2, buffer_size=300, n_reads=16), dict(linked=True, revcomp=True, cores=3, buffer_size=250, n_reads=18),
             dict(revcomp=True, times=3, n_ads=1, repeat=True), dict(revcomp=True, times=2, n_ads=2, repeat=True), dict(times=3, n_ads=1, repeat=True),
@@ -384,6 +390,9 @@ def _random_config(rng, focus, S):
         opt = rng.choice(("a", "a", "g", "b"))
         ads = [dict(opt=opt, seq=base, restr=None, name=None), dict(opt=opt, seq=mutate(rng, base, 1), restr=None, name=None)] + \
               ([dict(opt=opt, seq=base[:-2], restr=None, name=None)] if n_ads > 2 else [])
+    if S.get("specialnames") and len(ads) >= 2:
+        # names that differ only in characters some file systems do not allow: still two adapters, two files
+        ads[0]["name"], ads[1]["name"] = "s|1", "s:1"
     if S.get("dupseq") and len(ads) >= 2:
         # one barcode given to two samples: the same adapter twice under two names (the second can never win,
         # its output file exists nevertheless)
@@ -545,12 +554,15 @@ def _random_config(rng, focus, S):
         C["aux"] = True             # --rest-file / --wildcard-file (not defined for linked adapters)
     if S.get("longread"):
         C["_long"] = True
+    if S.get("name_ws"):
+        C["_name_ws"] = True
     if f == "C10" and p(0.7):
         C["perm_seed"] = rng.randrange(10**6)
     if S.get("only_r1") and C["paired"]:
         C["ads2"] = []
     for k in ("minlen", "maxlen", "maxn", "maxee", "maxaer", "casava", "pairfilter", "polya", "q", "Q", "nextseq", "cut1", "len1", "len2",
-              "lengthtag", "trimn", "info", "interleaved", "tooshortout", "rename", "cores", "buffer_size", "n_reads", "cut2", "strip"):
+              "lengthtag", "trimn", "info", "interleaved", "tooshortout", "rename", "cores", "buffer_size", "n_reads", "cut2", "strip",
+              "zerocap", "fasta_noop", "qbase", "toolongout", "empty_A_file"):
         if k in S:
             C[k] = S[k]
     if has_ads and demux == "none" and any(k in S for k in ("duntrim", "dtrim", "untrimout")):
